@@ -147,23 +147,71 @@ func runC12(c *Ctx) {
 			add = a
 		}
 		slowOK := false
-		EachInstr(fn, func(in ssa.Instruction) {
+		// the test may sit in the function itself or in helpers it calls (a shared tail, a predicate)
+		isSizeCmp := func(v ssa.Value) bool {
+			b, ok := v.(*ssa.BinOp)
+			return ok && b.Op == token.GTR && strings.Contains(D(b.X), "Queue.Size(") && strings.Contains(D(b.Y), "MaxQueueSize")
+		}
+		returnsSizeCmp := func(f *ssa.Function) bool {
+			found := false
+			EachInstr(f, func(in ssa.Instruction) {
+				if isSizeCmp2(in, isSizeCmp) {
+					found = true
+				}
+			})
+			return found
+		}
+		dv := w.Deep(fn, 2)
+		dv.Each(func(in ssa.Instruction) {
 			r, ok := in.(*ssa.Return)
-			if !ok || len(r.Results) != 1 || !strings.Contains(D(r.Results[0]), "DisconnectSlow") {
+			if !ok || len(r.Results) != 1 || !strings.Contains(D(retVals(r)[0]), "DisconnectSlow") {
 				return
 			}
 			g := GuardedBy(r, func(g Guard) bool {
-				b, ok := g.Cond.(*ssa.BinOp)
-				return ok && g.Pol && b.Op == token.GTR && strings.Contains(D(b.X), "Queue.Size(") && strings.Contains(D(b.Y), "MaxQueueSize")
-			}) && GuardedBy(r, func(g Guard) bool {
-				b, ok := g.Cond.(*ssa.BinOp)
-				return ok && g.Pol && b.Op == token.GTR && strings.Contains(D(b.X), "MaxQueueSize")
+				if !g.Pol {
+					return false
+				}
+				if isSizeCmp(g.Cond) {
+					return true
+				}
+				// a boolean helper that makes the comparison
+				if call, ok := g.Cond.(*ssa.Call); ok {
+					if cal := w.Callee(call); cal != nil && w.inModule(cal) && returnsSizeCmp(cal) {
+						return true
+					}
+				}
+				return false
 			})
-			if g && add != nil && Precedes(add, r) {
+			if g && add != nil && (in.Parent() != fn || Precedes(add, r)) {
 				slowOK = true
 			}
 		})
 		c.CheckAt("C12.R2", name+": DisconnectSlow exactly when the queued size exceeds MaxQueueSize", w.Pos(fn.Pos()), slowOK, "exceeding the configured queue size must close the connection as a slow consumer")
+		// flush holds writer.mu across the whole transport write (R1). A producer that takes the same lock
+		// before it compares the size blocks exactly when the peer stopped reading — nobody reports the
+		// overflow while it grows. The comparison is therefore made without writer.mu on every call path.
+		var mayHold func(in ssa.Instruction, depth int) bool
+		mayHold = func(in ssa.Instruction, depth int) bool {
+			if w.Locks().HeldAt(in).Holds("writer.mu", false) {
+				return true
+			}
+			if depth <= 0 || in.Parent() == fn {
+				return false
+			}
+			for _, site := range w.Callers(in.Parent()) {
+				if mayHold(site, depth-1) {
+					return true
+				}
+			}
+			return false
+		}
+		dv.Each(func(in ssa.Instruction) {
+			if !isSizeCmp2(in, isSizeCmp) {
+				return
+			}
+			c.Check("C12.R2", in, name+": the slow-consumer size test is made without writer.mu", !mayHold(in, 3),
+				"flush holds writer.mu for the whole transport write: a producer that waits for it before testing the size blocks while the peer is stuck, so the queue grows past MaxQueueSize and the connection is never closed as slow")
+		})
 	}
 	c.Floor("C12.R2", 4)
 
